@@ -39,7 +39,7 @@ MECHANISMS = [
 REQUIRED_MONITORS = ['affine_oracle', 'round_trip', 'identity', 'transitivity', 'array_vs_scalar', 'refusal_cross_dimension',
                      'lis_affine_oracle', 'lis_round_trip', 'lis_transitivity', 'lis_refusal',
                      'engval_arithmetic', 'engval_comparison', 'engval_refusal', 'eventlog:LIS.Units.convert']
-MIN_NONTRIVIAL = {'quick': 700000, 'thorough': 2500000}
+MIN_NONTRIVIAL = {'quick': 700000, 'thorough': 3500000}
 TIMEOUT_S = {'quick': 400, 'thorough': 3000}
 NSHARDS = 16
 N_TRIPLES = {'quick': 20000, 'thorough': 1000000}
